@@ -121,8 +121,16 @@ def run(rep, db, tier):
         if ex.choose(2, 'cached_frame') == 0:
             cached = BufV(ex, 'cached'); ex.assume(z3.And(cached.len.e >= 1, cached.len.e <= cached.cap.e, cached.cap.e <= 65535))
             hdr = mk.tuple_struct(r'zksync_consensus_network::mux::header::Header', Num(0b0100000000000000, 16))
-            pv_ = PermitV(cached); s['permits'].append(pv_)
-            cache = some(mk.adt(r'zksync_consensus_network::mux::reusable_stream::Frame', header=hdr, data=some(cached), _permit=some(pv_)))
+            # the harness follows the declared type of the `cache` field: the whole frame (data + read permit) or, if the code
+            # keeps only the unread bytes, just those — the permit obligations below are about frames taken from the channel
+            cdisp = db.ty(NET, [f for f in rrs_t['info']['variants'][0]['fields'] if f['name'] == 'cache'][0]['ty'])['display']
+            if cdisp.endswith('Frame>'):
+                pv_ = PermitV(cached); s['permits'].append(pv_)
+                cache = some(mk.adt(r'zksync_consensus_network::mux::reusable_stream::Frame', header=hdr, data=some(cached), _permit=some(pv_)))
+            elif cdisp.endswith('Buffer>'):
+                cache = some(cached)
+            else:
+                raise Unmodelled(f'ReadReusableStream::cache has type {cdisp}: environment model out of date')
         rrs = mk.adt(r'zksync_consensus_network::mux::reusable_stream::ReadReusableStream', cache=cache, recv=Opaque('frame_channel'), close_received=closed)
         stream = mk.tuple_struct(r'zksync_consensus_network::mux::transient_stream::ReadStream', BoxV(rrs))
         dst = BufV(ex, 'dst'); ex.assume(z3.And(dst.len.e <= dst.cap.e, dst.cap.e <= 65535))
@@ -182,7 +190,7 @@ def run(rep, db, tier):
             if pm.dropped_at is not None:
                 need(pc, 'read:permit-released-early', 'the read permit of a DATA frame is released while unread bytes of the frame are still held by the stream (received-but-unconsumed data is no longer counted against read_buffer_size / read_frame_count)', pm.dropped_at[0].e == 0)
             elif r != 'pending' and pm.buf is not pc_buf:
-                need(pc, 'read:permit-leaked', 'a DATA frame is gone but its read permit was never released (the intake budget shrinks for good)', z3.BoolVal(False))
+                need(pc, 'read:permit-leaked', f'a DATA frame is gone but its read permit was never released (the intake budget shrinks for good) [events: {[e[0] for e in log]}, result {str(r)[:40]}]', z3.BoolVal(False))
         for fb in frames:
             if fb is pc_buf: continue
             if r == 'pending': continue
